@@ -75,12 +75,33 @@ class Interp:
         # operations the library refused locally (their DONE line says so): they never reach the wire, so the packet
         # attribution below must not wait for them — several requests can be handled in one poll of run(), and then the
         # W lines of later requests come before the DONE lines of earlier, refused ones
+        # Only a refusal of the request itself counts: the DONE line must follow the operation's first poll with no inbound
+        # bytes fed in between (an error reported after an acknowledgement was fed — e.g. for the PUBREL phase of a QoS 2
+        # publish — belongs to an operation that DID reach the wire).
         self.refused = set()
-        for _, obs in segs:
+        held, start, fed = set(), {}, {}
+        for si, (line, obs) in enumerate(segs):
+            t = line.split(' ') if line else []
+            if t[:1] == ['HOLD']:
+                held.add(t[1])
+            elif t[:1] == ['RELEASE']:
+                held.discard(t[1])
+                if t[1].startswith('op') and t[1][2:].isdigit() and int(t[1][2:]) not in start:
+                    start[int(t[1][2:])] = si
+            elif t[:1] == ['POLL'] and t[1].startswith('op') and t[1][2:].isdigit() and int(t[1][2:]) not in start:
+                start[int(t[1][2:])] = si
+            elif t[:1] == ['OP'] and f'op{t[1]}' not in held:
+                start[int(t[1])] = si
+            elif t[:1] == ['FEED']:
+                for k in start:
+                    if start[k] < si:
+                        fed[k] = True
             for o in obs:
                 ot = o.split(' ')
                 if ot[0] == 'DONE' and len(ot) >= 4 and ot[2] == 'err' and ot[3] in ('QuotaExceeded', 'MaximumPacketSizeExceeded', 'CodecError'):
-                    self.refused.add(int(ot[1][2:]))
+                    k = int(ot[1][2:])
+                    if not fed.get(k):
+                        self.refused.add(k)
         self.run()
 
     def ev(self, **kw):
@@ -468,9 +489,13 @@ def o_C02(I):
                 kind = ACK_KIND[t]
                 dones = [x for x in later if x['kind'] == 'done' and x['op'] is not None and x['op'].dropped is None]
                 exp = view_ack_done(kind, p)
+                okind = {4: 'PUBLISH', 5: 'PUBLISH', 7: 'PUBLISH', 9: 'SUBSCRIBE', 11: 'UNSUBSCRIBE', 13: 'PING'}[t]
                 for x in dones:
                     op = x['op']
-                    if t != 13 and op.pid != p['pid']:
+                    # several packets may be fed in one segment: only the operation this acknowledgement is addressed to
+                    if op.kind != okind or (t != 13 and op.pid != p['pid']):
+                        continue
+                    if t == 13 and sum(1 for y in ev if y['kind'] == 'in' and y['seg'] == seg) > 1:
                         continue
                     if exp is not None and x['text'] != exp and not x['text'].startswith('err ContextExited'):
                         out.append((I.name, seg, f"op{op.id} completed with `{x['text']}`, the {kind} says `{exp}`"))
@@ -821,6 +846,38 @@ def publish_len(op):
     return 1 + len(m.varint(rem)) + rem
 
 
+def request_len(op, sid=1):
+    """length of the packet a request encodes to (MQTT 5 sections 3.3, 3.8, 3.10, 3.12, 3.14), from the request alone;
+    `sid` = the subscription identifier the library will assign (only its varint size matters)"""
+    f = op.f
+    ups = 0
+    for u in f.get('up', []):
+        k, v = u.split(':')
+        ups += 5 + len(unhex(k)) + len(unhex(v))
+    if op.kind == 'PUBLISH':
+        return publish_len(op) if 't' in f else None
+    if op.kind == 'PING':
+        return 2
+    if op.kind == 'SUBSCRIBE':
+        fl = [x.split(':')[0] for x in f.get('f', [])]
+        if not fl:
+            return None
+        pl = 1 + len(m.varint(sid)) + ups
+        rem = 2 + len(m.varint(pl)) + pl + sum(3 + len(unhex(x)) for x in fl)
+        return 1 + len(m.varint(rem)) + rem
+    if op.kind == 'UNSUBSCRIBE':
+        fl = f.get('f', [])
+        if not fl:
+            return None
+        rem = 2 + len(m.varint(ups)) + ups + sum(2 + len(unhex(x)) for x in fl)
+        return 1 + len(m.varint(rem)) + rem
+    if op.kind == 'DISCONNECT':
+        pl = ups + (5 if 'sei' in f else 0) + (3 + len(unhex(f['rs'][-1])) if 'rs' in f else 0)
+        rem = 1 + len(m.varint(pl)) + pl
+        return 1 + len(m.varint(rem)) + rem
+    return None
+
+
 def o_C12(I, ref_len):
     """ref_len: op id -> length of the packet that operation writes when no limit applies (from the reference script)"""
     out = []
@@ -832,8 +889,9 @@ def o_C12(I, ref_len):
         if op.done is None and not op.w:
             continue
         L = ref_len.get(op.id)
-        if L is None and op.kind == 'PUBLISH' and 't' in op.f:
-            L = publish_len(op)
+        if L is None:
+            nsub = len([o for o in I.ops.values() if o.kind == 'SUBSCRIBE' and o.id <= op.id])
+            L = request_len(op, max(nsub, 1))
         if L is None:
             continue
         too_big = M is not None and L > M
